@@ -44,8 +44,8 @@ def reserve_arg_names(a: ast.AST):
         name = (
             node.id if isinstance(node, ast.Name) else node.arg if isinstance(node, ast.arg) else ""
         )
-        # (a number Python refuses to convert is one the counter cannot be formatted as either)
-        if re.fullmatch("arg_[0-9]+", name) and len(name) - 4 <= _max_digits:
+        # (only numbers below the longest one Python converts: the counter, one more, is still formatted)
+        if re.fullmatch("arg_[0-9]+", name) and len(name) - 4 < _max_digits:
             argument_var_counter = max(argument_var_counter, int(name[4:]) + 1)
 
 
